@@ -171,35 +171,129 @@ Definition read_one (qs : str) (body : list N) (a : accessor) : qres fdict :=
 Definition read_seq (qs : str) (body : list N) (order : list accessor) : list (qres fdict) :=
   map (read_one qs body) order.
 
-(* ---- one request whose query string / body are REPLACED between reads ----
-   request['QUERY_STRING'] = qs     (Request.__setitem__ -> _on_env_changed drops query, params)
-   request['wsgi.input'] = BytesIO(b); request['CONTENT_LENGTH'] = str(len(b))
-                                    (drops forms, files, params, post, json, body / content_length)
-   so a read always decodes what the request carries at that moment: the state
-   is just (qs, body). *)
-Inductive op :=
-| ORead (a : accessor)
-| OSetQs (qs : str)
-| OSetBody (b : list N)
-| OReadBody (n : Z).     (* request.body.read(n): the body property rewinds, _get_body_string rewinds
-                            again (body_mixin.py: self._body.seek(0)) — no effect on later reads *)
+(* ---- one request that is read, copied and UPDATED through its item API ----
+   request[key] = value  (Request.__setitem__, request.py:101): KeyError when the environ is
+   marked read-only, nothing when the value is unchanged, otherwise the value is stored and
+   _on_env_changed (request.py:51) drops the caches that depend on the key:
+     QUERY_STRING   -> query, params
+     wsgi.input     -> forms, files, params, post, json, body
+     CONTENT_LENGTH -> content_length, forms, files, params, post, json
+     CONTENT_TYPE   -> content_type, ctype, forms, files, params, post, json
+     HTTP_*         -> headers, cookies          any other key: nothing
+   del request[key] (request.py:118) = request[key] = "" and then the key is removed.
+   So every view decodes what the request carries at that moment; the state is
+   (query string, body, content type). *)
 
-Definition rstate := (str * list N)%type.
+Record rstate := mkR { r_qs : str; r_body : list N; r_ct : str }.
 
-Definition apply_op (st : rstate) (o : op) : rstate :=
-  match o with
-  | ORead _ => st
-  | OSetQs q => (q, snd st)
-  | OSetBody b => (fst st, b)
-  | OReadBody _ => st
+(* body_mixin.py:180-183 (POST): ctype = self.content_type (= environ CONTENT_TYPE, '' if
+   missing, .lower()); multipart/... and application/json... leave the urlencoded branch.
+   (lower: ASCII letters; header values are Latin-1, where str.lower() creates no new
+   ASCII letter) *)
+Definition selects_urlencoded (ct : str) : bool :=
+  let l := lower ct in
+  negb (prefixb [109;117;108;116;105;112;97;114;116;47]%N l)                               (* 'multipart/' *)
+  && negb (prefixb [97;112;112;108;105;99;97;116;105;111;110;47;106;115;111;110]%N l).     (* 'application/json' *)
+
+(* what a view returns: a FormsDict, or the result of another body parser (not modelled here) *)
+Inductive rout := RO (r : qres fdict) | ROther.
+
+Definition view (st : rstate) (a : accessor) : rout :=
+  match a with
+  | AQuery => RO (query (r_qs st))
+  | AForms => if selects_urlencoded (r_ct st) then RO (forms_urlencoded (r_body st)) else ROther
+  | AParams => if selects_urlencoded (r_ct st) then RO (params (r_qs st) (r_body st)) else ROther
   end.
 
-(* the results of the reads, in order *)
-Fixpoint run_ops (st : rstate) (ops : list op) : list (qres fdict) :=
+Inductive op :=
+| ORead (a : accessor)                 (* request.query / .forms / .params *)
+| OCopy (a : accessor)                 (* FormsDict.copy() of the view (helpers.py:134); the copy is then mutated *)
+| OAttr (a : accessor) (name : str)    (* FormsDict.__getattr__ (helpers.py:137): view.<name>, None when missing *)
+| OSetQs (qs : str)                    (* request['QUERY_STRING'] = qs *)
+| ODelQs                               (* del request['QUERY_STRING'] *)
+| OSetBody (b : list N)                (* request['wsgi.input'] = BytesIO(b); request['CONTENT_LENGTH'] = str(len(b)) *)
+| OReadBody (n : Z)                    (* request.body.read(n): body rewinds, _get_body_string rewinds again *)
+| OSetCtype (ct : str)                 (* request['CONTENT_TYPE'] = ct *)
+| OSetOther.                           (* request['HTTP_X'] = ..., request['x'] = ... : no view depends on it *)
+
+(* ro = environ['ombott.request.readonly']: every assignment raises KeyError and changes nothing *)
+Definition apply_op (ro : bool) (st : rstate) (o : op) : rstate :=
+  if ro then st else
+  match o with
+  | OSetQs q => mkR q (r_body st) (r_ct st)
+  | ODelQs => mkR [] (r_body st) (r_ct st)
+  | OSetBody b => mkR (r_qs st) b (r_ct st)
+  | OSetCtype ct => mkR (r_qs st) (r_body st) ct
+  | _ => st
+  end.
+
+Definition attr_of (name : str) (r : rout) : rout :=
+  match r with
+  | RO (QDone d) => RO (QDone match dict_get d name with Some v => [(name, v)] | None => [] end)
+  | x => x
+  end.
+
+(* the observation an operation produces (None: it only updates) *)
+Definition out_of (st : rstate) (o : op) : option rout :=
+  match o with
+  | ORead a => Some (view st a)
+  | OCopy a => Some (view st a)
+  | OAttr a name => Some (attr_of name (view st a))
+  | _ => None
+  end.
+
+Fixpoint run_ops (ro : bool) (st : rstate) (ops : list op) : list rout :=
   match ops with
   | [] => []
-  | ORead a :: r => read_one (fst st) (snd st) a :: run_ops st r
-  | o :: r => run_ops (apply_op st o) r
+  | o :: r =>
+    match out_of st o with
+    | Some x => x :: run_ops ro st r
+    | None => run_ops ro (apply_op ro st o) r
+    end
+  end.
+
+(* ---- one application object serving several requests in a row: a fresh environ per
+   request, nothing of a previous request is visible ---- *)
+Definition serve_all (reqs : list (str * list N)) : list (list (qres fdict)) :=
+  map (fun qb => [query (fst qb); forms_urlencoded (snd qb); params (fst qb) (snd qb)]) reqs.
+
+(* ---- helpers.py:13 cache_in: a memoising property with a custom storage ----
+   storage is an attribute (cache_in('_x')) or a key of a dict attribute
+   (cache_in('environ[ k ]')): same behaviour.  The getter of the model returns
+   base + (number of earlier getter calls), so a recomputation is visible. *)
+Inductive cop := CGet | CSet (v : Z) | CDel.
+
+Inductive cout :=
+| CVal (v : Z)      (* value returned by fget *)
+| COk               (* fset / fdel succeeded *)
+| CReadOnly         (* AttributeError("Read-Only property.") *)
+| CMissing          (* fdel with nothing cached: AttributeError / KeyError *)
+| CGetterErr.       (* getter raised AttributeError -> PropertyGetterError; nothing is cached *)
+
+Record cstate := mkC { c_cached : option Z; c_calls : nat }.
+
+Definition cache_step (read_only getter_fails : bool) (base : Z) (st : cstate) (o : cop) : cout * cstate :=
+  match o with
+  | CGet =>
+    match c_cached st with
+    | Some v => (CVal v, st)
+    | None =>
+      if getter_fails then (CGetterErr, mkC None (S (c_calls st)))
+      else let v := (base + Z.of_nat (c_calls st))%Z in (CVal v, mkC (Some v) (S (c_calls st)))
+    end
+  | CSet v => if read_only then (CReadOnly, st) else (COk, mkC (Some v) (c_calls st))
+  | CDel =>
+    if read_only then (CReadOnly, st)
+    else match c_cached st with
+         | Some _ => (COk, mkC None (c_calls st))
+         | None => (CMissing, st)
+         end
+  end.
+
+Fixpoint cache_run (ro gf : bool) (base : Z) (st : cstate) (ops : list cop) : list cout :=
+  match ops with
+  | [] => []
+  | o :: r => let '(x, st') := cache_step ro gf base st o in x :: cache_run ro gf base st' r
   end.
 
 (* ---- correspondence interface ---- *)
@@ -223,10 +317,41 @@ Definition enc_opt_str (o : option (list N)) : list Z := enc_option enc_str o.
 Definition with_str (r : list Z) (f : str -> list Z -> list Z) : list Z :=
   match dec_str r with Some (s, r') => f s r' | None => bad_input end.
 
+Definition acc_of (z : Z) : accessor := if Z.eqb z 0 then AQuery else if Z.eqb z 1 then AForms else AParams.
+
+Definition dec_pair (l : list Z) : option ((str * str) * list Z) :=
+  match dec_str l with
+  | Some (k, l1) => match dec_str l1 with Some (v, l2) => Some ((k, v), l2) | None => None end
+  | None => None
+  end.
+
+(* op codes: 0 a read | 1 s set_qs | 2 b set_body | 3 n read_body | 4 a copy | 5 a name attr |
+             6 del_qs | 7 s set_ctype | 8 set_other *)
+Definition dec_op (l : list Z) : option (op * list Z) :=
+  match l with
+  | 0%Z :: z :: l' => Some (ORead (acc_of z), l')
+  | 1%Z :: l' => match dec_str l' with Some (s, l'') => Some (OSetQs s, l'') | None => None end
+  | 2%Z :: l' => match dec_str l' with Some (s, l'') => Some (OSetBody s, l'') | None => None end
+  | 3%Z :: n :: l' => Some (OReadBody n, l')
+  | 4%Z :: z :: l' => Some (OCopy (acc_of z), l')
+  | 5%Z :: z :: l' => match dec_str l' with Some (s, l'') => Some (OAttr (acc_of z) s, l'') | None => None end
+  | 6%Z :: l' => Some (ODelQs, l')
+  | 7%Z :: l' => match dec_str l' with Some (s, l'') => Some (OSetCtype s, l'') | None => None end
+  | 8%Z :: l' => Some (OSetOther, l')
+  | _ => None
+  end.
+
+Definition enc_rout (x : rout) : list Z :=
+  match x with
+  | RO r => enc_qres enc_fdict r
+  | ROther => [5%Z]
+  end.
+
 (* first integer = kind:
      0 query(qs)          1 forms(body)        2 params(qs, body)     3 parse_qsl(qs) pairs
     4 read_seq(qs, body, order)   (order: 0 query, 1 forms, 2 params)
-    6 run_ops((qs, body), ops)    (op: 0 a = read | 1 str = set QUERY_STRING | 2 bytes = set body | 3 n = body.read(n))
+    6 ro qs body ctype ops : run_ops           7 mode d0 qs : parse_qsl append / setitem into d0
+    8 requests : serve_all                     9 ro getter_fails base ops : cache_in
     10 utf8_encode s     11 utf8_dec bs       12 utf8_dec_replace bs
     20 quote s           21 quote_plus s      22 unquote s            23 unquote_to_bytes s (ASCII)
     24 urlencode pairs   25 urlencode_q pairs 26 quote(s, safe='/')                           *)
@@ -245,20 +370,43 @@ Definition corr_C18_base (inp : list Z) : list Z :=
                                                            else if Z.eqb z 1 then AForms else AParams) order))
                   | None => bad_input
                   end))
-  | 6%Z :: r => with_str r (fun qs r' => with_str r' (fun b r'' =>
-                  match dec_list (fun l => match l with
-                                           | 0%Z :: z :: l' => Some (ORead (if Z.eqb z 0 then AQuery
-                                                                            else if Z.eqb z 1 then AForms else AParams), l')
-                                           | 1%Z :: l' => match dec_str l' with
-                                                          | Some (s, l'') => Some (OSetQs s, l'') | None => None end
-                                           | 2%Z :: l' => match dec_str l' with
-                                                          | Some (s, l'') => Some (OSetBody s, l'') | None => None end
-                                           | 3%Z :: n :: l' => Some (OReadBody n, l')
-                                           | _ => None
-                                           end) r'' with
-                  | Some (ops, _) => enc_list (enc_qres enc_fdict) (run_ops (qs, b) ops)
+  | 6%Z :: ro :: r => with_str r (fun qs r' => with_str r' (fun b r'' => with_str r'' (fun ct r3 =>
+                  match dec_list dec_op r3 with
+                  | Some (ops, _) => enc_list enc_rout (run_ops (negb (Z.eqb ro 0)) (mkR qs b ct) ops)
                   | None => bad_input
-                  end))
+                  end)))
+  | 7%Z :: mode :: r =>
+    (* parse_qsl directly: mode 0 = append=..., mode 1 = setitem into the given dict *)
+    match dec_list dec_pair r with
+    | Some (d0, r') =>
+      with_str r' (fun qs _ =>
+        if Z.eqb mode 0
+        then enc_qres (enc_list (fun kv => enc_str (fst kv) ++ enc_str (snd kv)))
+                      (qres_of (fun x => x) (qsl_run add_pair qs d0))
+        else enc_qres enc_fdict (parse_qsl_into (map (fun kv => (fst kv, VStr (snd kv))) d0) qs))
+    | None => bad_input
+    end
+  | 8%Z :: r =>
+    match dec_list (fun l => match dec_str l with
+                             | Some (q, l1) => match dec_str l1 with
+                                               | Some (b, l2) => Some ((q, b), l2) | None => None end
+                             | None => None end) r with
+    | Some (reqs, _) => enc_list (enc_list (enc_qres enc_fdict)) (serve_all reqs)
+    | None => bad_input
+    end
+  | 9%Z :: ro :: gf :: base :: r =>
+    match dec_list (fun l => match l with
+                             | 0%Z :: l' => Some (CGet, l')
+                             | 1%Z :: v :: l' => Some (CSet v, l')
+                             | 2%Z :: l' => Some (CDel, l')
+                             | _ => None end) r with
+    | Some (ops, _) =>
+      enc_list (fun x => match x with
+                         | CVal v => [0%Z; v] | COk => [1%Z] | CReadOnly => [2%Z]
+                         | CMissing => [3%Z] | CGetterErr => [4%Z] end)
+               (cache_run (negb (Z.eqb ro 0)) (negb (Z.eqb gf 0)) base (mkC None 0) ops)
+    | None => bad_input
+    end
   | 10%Z :: r => with_str r (fun s _ => enc_opt_str (utf8_encode s))
   | 11%Z :: r => with_str r (fun s _ => enc_opt_str (utf8_dec s))
   | 12%Z :: r => with_str r (fun s _ => enc_str (utf8_dec_replace s))
